@@ -16,7 +16,7 @@ import (
 )
 
 var recRT = kit.NewRecorder("C09", "realtime",
-	"real supervisors on real nodes with the real clock (thorough tier; 24 scenarios run concurrently per generated batch): type x Intensity 1-3 x Period 1-2 s x 1-2 children, 2-6 kills separated by real sleeps drawn from {0-30 ms, Period-300 ms, Period+300 ms, Period/2}; steps whose decision depends on a restart within 200 ms of the window edge are not judged; "+
+	"real supervisors on real nodes with the real clock (thorough tier; 24 scenarios run concurrently per generated batch): type x Intensity 1-3 x Period 1-2 s x 1-2 children, 2-6 kills separated by real sleeps drawn from {0-30 ms, Period-300 ms, Period+300 ms, Period/2}; every failure is stamped by the supervisor somewhere between the kill and the moment its reaction became visible - a step is judged only if the verdict is the same for the smallest and the largest possible ages; "+
 		"oracle: as in the state-machine part, observed through the supervisor's terminate callback (reason ErrSupervisorRestartsExceeded exactly when the sliding window says so) and the liveness of the children; "+
 		"non-trivial = a restart aged out of the window; distinct by scenario")
 
